@@ -198,6 +198,11 @@ pub struct Sess {
 /// build the application on the current runtime, report it Online and run to quiescence. With
 /// `reset_clock` the mock clock reads `now` again afterwards (component `host`: the first request
 /// runs at `now`); without, the start-up costs 1 ms like every other line (component `loop`).
+thread_local! {
+    /// the `AppClient` of the application built last on this thread (for the try_ publish scenario)
+    static APP_CLIENT: std::cell::RefCell<Option<srad_app::AppClient>> = std::cell::RefCell::new(None);
+}
+
 async fn start_app(cfgw: &[&str], reset_clock: bool, strict: bool) -> (Hub, EventFeeder, Mem) {
     let now = num(cfgw, "now");
     let b = |k: &str| num(cfgw, k) == 1;
@@ -223,7 +228,7 @@ async fn start_app(cfgw: &[&str], reset_clock: bool, strict: bool) -> (Hub, Even
     let hub_cb = h2.clone();
     let mem: Mem = Default::default();
     let mem_cb = mem.clone();
-    let (app, _client) = ApplicationBuilder::new("host", el, client, SubscriptionConfig::AllGroups)
+    let (app, app_client) = ApplicationBuilder::new("host", el, client, SubscriptionConfig::AllGroups)
         .with_rebirth_config(cfg)
         .resequence_messages(reseq)
         .with_node_queue_size(q)
@@ -240,6 +245,7 @@ async fn start_app(cfgw: &[&str], reset_clock: bool, strict: bool) -> (Hub, Even
             });
         })
         .build();
+    APP_CLIENT.with(|c| *c.borrow_mut() = Some(app_client));
     tokio::spawn(app.run());
     feeder.push(Event::Online);
     settle().await;
@@ -561,6 +567,11 @@ impl Sess {
         if w[1] == "ev" && w[3] == "nbirth" {
             let n = target.clone().unwrap();
             let t = ts.unwrap();
+            // C14: a well-formed NBIRTH strictly newer than the birth the host holds (or than "never" = 0)
+            // is shown to the node's store
+            if !self.burst_mode && t > *self.birth_ts.get(&n).unwrap_or(&0) && !effs.iter().any(|(m, e)| *m == n && e.starts_with("nodeBirth(")) {
+                out.fail("C14:newer-nbirth-admitted", if self.birth_ts.contains_key(&n) { "rebirth" } else { "first-birth" }, format!("{} => {:?}", op, effs));
+            }
             let accepted = t > *self.birth_ts.get(&n).unwrap_or(&0)
                 && !effs.iter().any(|(_, e)| e.starts_with("nodeBirth(") && e.ends_with(",0)"));
             if accepted {
@@ -1395,6 +1406,62 @@ fn wrap_verbs_scenario(out: &mut Out) {
     }
 }
 
+/// births and data stamped 0, 1, 2 ms: the first NBIRTH of a node is accepted iff its timestamp is
+/// newer than "never" (0), whatever the absolute value
+fn small_timestamp_scenario(out: &mut Out) {
+    for t in 0..3u64 {
+        let cfg = cfg_default("-", 0, 1);
+        let mut c = Case::begin(out, &cfg, t);
+        c.out.set_desc("ordered small-timestamps".into());
+        c.sess.ordered_ids = true;
+        c.op(&format!("ev n1 nbirth ts={} bd=3 id=1 ans=ok", t));
+        c.op(&format!("ev n1 ndata seq=1 ts={} id=2 ans=ok", t));
+        c.op(&format!("ev n1 dbirth dev=1 seq=2 ts={} id=3 ans=ok", t + 1));
+        c.op(&format!("ev n1 ddata dev=1 seq=3 ts={} id=4 ans=ok", t + 1));
+        c.op(&format!("ev n1 nbirth ts={} bd=3 id=5 ans=ok", t + 1));
+        c.op(&format!("ev n1 ndata seq=1 ts={} id=6 ans=ok", t + 1));
+        c.out.nontrivial();
+        c.out.count("small-timestamps");
+    }
+}
+
+/// C20, last sentence, host side: `AppClient::try_publish_metrics` uses only the client's non-blocking
+/// calls - with a client that parks every blocking call it still returns at once, for node and device
+/// command topics (no model line: a direct check of the real call)
+pub fn app_try_publish_scenario(out: &mut Out) {
+    let cfg = cfg_default("100", 0, 1);
+    let mut c = Case::begin(out, &cfg, 1_000_000);
+    c.out.set_desc("app-try-publish".into());
+    let client = APP_CLIENT.with(|c| c.borrow().clone()).expect("app client");
+    let hub = c.sess.hub.clone();
+    hub.default_blocking(Some(Decision::Park));
+    let from = hub.calls().len();
+    let rt = c.sess.rt.as_ref().expect("own runtime");
+    for (what, topic) in [
+        ("node", srad_app::PublishTopic::new_node_cmd("g", "n1")),
+        ("device", srad_app::PublishTopic::new_device_cmd("g", "n1", "d1")),
+    ] {
+        let m = srad_app::PublishMetric::new(MetricId::Name("x".into()), 1i32);
+        let cl = client.clone();
+        let done = rt.block_on(async move { tokio::time::timeout(Duration::from_millis(5), cl.try_publish_metrics(topic, vec![m])).await.is_ok() });
+        if !done {
+            c.out.fail("C20:try-never-waits", &format!("app:{}", what), "AppClient::try_publish_metrics did not return while the client parks every blocking call".into());
+        }
+    }
+    let calls = hub.calls();
+    for cl in &calls[from..] {
+        if matches!(cl.kind, Kind::NCmd | Kind::DCmd) && !cl.is_try {
+            c.out.fail("C20:try-uses-nonblocking-client-call", &format!("app:{}", cl.kind.name()), format!("AppClient::try_publish_metrics handed {} over through a blocking client call", cl.kind.name()));
+        }
+    }
+    if calls[from..].iter().filter(|cl| matches!(cl.kind, Kind::NCmd | Kind::DCmd)).count() != 2 {
+        c.out.fail("C20:try-uses-nonblocking-client-call", "app:count", format!("expected one NCMD and one DCMD hand-over, got {:?}", calls[from..].iter().map(|x| x.kind.name()).collect::<Vec<_>>()));
+    }
+    hub.default_blocking(None);
+    c.out.nontrivial();
+    c.out.count("app-try-publish");
+}
+
 /// an invalid payload leaves the host's state untouched, also for a node it has never seen: with the
 /// invalid_payload switch off no node is created, and the node's next well-formed message is still
 /// "data from an unknown node"
@@ -1432,6 +1499,8 @@ pub fn run(args: &Args, out: &mut Out) -> &'static str {
     late_duplicate_scenario(out, "100");
     wrap_verbs_scenario(out);
     invalid_unknown_node_scenario(out);
+    small_timestamp_scenario(out);
+    app_try_publish_scenario(out);
     // (c) exhaustive soups
     let l = if th { 4 } else { 3 };
     for cfg in [cfg_default("100", 0, 1), "ip=1 bd=1 un=1 ud=1 um=1 rf=1 rs=1 to=- cd=1000000000 rq=1 q=1024".to_string()] {
@@ -1481,6 +1550,9 @@ pub fn run(args: &Args, out: &mut Out) -> &'static str {
 }
 
 pub fn replay(desc: &str, lines: &[String], out: &mut Out) {
+    if desc == "app-try-publish" {
+        return app_try_publish_scenario(out);
+    }
     let mut sess: Option<Sess> = None;
     for l in lines {
         if l.starts_with("host new ") {
